@@ -240,12 +240,15 @@ Definition p_distribution (from to col : Z) (cp : dict) (d : list (list FN)) : o
       end
   end.
 
-(** the whole call: [None] = ValueError; [positions] = the draws of np.random.choice *)
+(** the whole call: [None] = ValueError (also the one np.random.choice raises for a vector with a
+    negative entry); [positions] = the draws of np.random.choice *)
 Definition label_probability (from to col : Z) (cp : dict) (positions : list Z)
   (d : list (list FN)) : option (list (list FN)) :=
   match p_distribution from to col cp d with
   | None => None
-  | Some _ => Some (resample feqb fltb f0 from to col positions d)
+  | Some p =>
+      if existsb (fun x => x <? f0) p then None
+      else Some (resample feqb fltb f0 from to col positions d)
   end.
 
 (** ** LabelDirichletInjector.__call__ : [dir] = the draw of np.random.dirichlet(alpha.values()) *)
